@@ -119,7 +119,7 @@ namespace hs
     struct SrcSB // BlockAllocator with an arbitrary size sequence
     {
         using type = sim::sim_block_allocator;
-        static constexpr bool grows = true, faultable = true, bounded = false;
+        static constexpr bool grows = true, faultable = true, bounded = true;
         template <class T, class... A>
         static T* make(void* slot, const ObjCfg& c, A... a)
         {
